@@ -46,7 +46,7 @@ META = dict(
                 "without_defer_error_leaks_lock is the counterexample), later_entrant_gets_in (safety) + waiter_progress / "
                 "single_name_no_deadlock (progress: a wait cycle needs two names in conflicting program order), "
                 "locked_has_live_holder, no_lost_update, ids_distinct (+ load-then-add / reset counterexamples, "
-                "id_counter_monotone, id_counter_starts_positive)."),
+                "id_counter_monotone, first_thread_id_positive)."),
     level_note=("Trusted: Lean kernel + propext/Classical.choice/Quot.sound; sync.Mutex is a correct lock; each MutexesMutex "
                 "section is one atomic, non-blocking event (supported by the facts table_uses_under_table_lock and "
                 "protocol_order_facts, which are syntactic go/ast analyses with `unknown` where aliases escape — none today); a thread IS its tid (two goroutines evaluating with one "
@@ -93,12 +93,23 @@ def read_skeletons():
 EXPECTED_UNKNOWN = {}
 
 
+KF_INJECT = "inject-shares-thread-999"
+
+
+def literal_tids():
+    import json
+    import re
+    src = open(GEN).read() if os.path.exists(GEN) else ""
+    m = re.search(r"def literalTids : List String := \[(.*)\]", src)
+    return [json.loads(x) for x in re.findall(r'"(?:[^"\\\\]|\\\\.)*"', m.group(1))] if m else []
+
+
 def unknown_facts():
     import re
     src = open(GEN).read() if os.path.exists(GEN) else ""
     out = [m.group(1) for m in re.finditer(r'\("((?:[^"\\\\]|\\\\.)*)", "unknown"\)', src)]
-    if "def idCounterInit : Option Nat := none" in src:
-        out.append("idCounterInit")
+    if "def idFirst : Option Nat := none" in src:
+        out.append("idFirst")
     return out
 
 
@@ -139,7 +150,10 @@ def correspondence(ctx, binp, tier, budget):
         _, tr = split_go(gores.get(i, "MISSING-RESULT"))
         lines[i] = cases[i] + "\t" + tr
     model = checklib.run_driver(ctx, "C12", lines, shards=SPEC["shards"])
-    bad, validated, events, nontrivial, exact = [], 0, 0, set(), 0
+    bad, validated, events, nontrivial, exact, kf = [], 0, 0, set(), 0, []
+    # mode J (concurrent debugger injections) shows the known finding as long as the tree evaluates
+    # injections with a literal thread id; spec = the model's result (mutual exclusion, counters, end state)
+    inject_known = bool(literal_tids())
     for i in sorted(cases):
         g, _ = split_go(gores.get(i, "MISSING-RESULT"))
         m, attrs = model.get(i, ("MISSING-MODEL-RESULT", {}))
@@ -149,9 +163,11 @@ def correspondence(ctx, binp, tier, budget):
         if g == m and attrs.get("replay") == "ok":
             validated += 1
             exact += attrs.get("exact") == "1"
+        elif inject_known and cases[i].startswith("J "):
+            kf.append(i)
         else:
             bad.append(i)
-    return dict(cases=cases, gores=gores, model=model, bad=bad, validated=validated, events=events, exact=exact,
+    return dict(kf=kf, cases=cases, gores=gores, model=model, bad=bad, validated=validated, events=events, exact=exact,
                 nontrivial=nontrivial, stats=stats, infos=infos)
 
 
@@ -220,6 +236,18 @@ def run(ctx):
                        "model": r["model"].get(i, ("", {}))[0],
                        "trace_replay": r["model"].get(i, ("", {}))[1].get("replay")} for i in idx]
     report(ctx, r)
+    if r["kf"]:
+        known, _ = checklib.load_known()
+        i = r["kf"][0]
+        g0 = split_go(r["gores"].get(i, ""))[0]
+        if ("C12", KF_INJECT) in known:
+            checklib.known_finding(ctx, f"id={KF_INJECT} {known[('C12', KF_INJECT)]} ({len(r['kf'])} cases, e.g. {r['cases'][i]!r}: "
+                                        f"go={g0[:80]!r} spec={r['model'].get(i, ('', {}))[0][:80]!r})")
+        else:
+            rp = checklib.write_replay(ctx, "input", {"payload": r["cases"][i]}, {"result": r["model"].get(i, ("", {}))[0]},
+                                       {"result": g0}, "./check C12 --replay <this file>", tag="kf")
+            checklib.violation(ctx, rp, f"unlisted finding class {KF_INJECT}")
+    cov["known_finding_cases"] = len(r["kf"])
     sk = read_skeletons()
     changed = [n for n, want in (("skeleton", SKELETON), ("idSkeleton", ID_SKELETON)) if sk.get(n) != want]
     cov["skeleton_changed"] = {n: sk.get(n) for n in changed} if changed else False
@@ -244,6 +272,14 @@ def run(ctx):
         if r2["bad"]:
             report(ctx, r2, limit=1)
             found = True
+    if unexpected and thorough and not found and not proof_broken:
+        # in the thorough tier a fact the extractor cannot establish is not acceptable: the generator's
+        # envelope (bodies shorter than the deadlock bound, three names, …) cannot stand in for it
+        rp = checklib.write_replay(ctx, "obligation", {"facts_unknown": unexpected,
+                                                       "facts": open(GEN).read() if os.path.exists(GEN) else None},
+                                   "every source fact established (verdict some true)", "verdict unknown: " + "; ".join(unexpected),
+                                   "harness C12 -tool skeleton", theorem="facts with verdict unknown: " + "; ".join(unexpected)[:400])
+        checklib.violation(ctx, rp, no_input=True)
     if proof_broken and not found:
         rp = checklib.write_replay(ctx, "obligation", {"failures": lres["failures"], "theorems": lres["theorems"],
                                                        "facts": open(GEN).read() if os.path.exists(GEN) else None},
